@@ -4,7 +4,9 @@ package main
 // the same fixture always yields the same bytes (findings are identified by <extractor, fixture, plan>).
 
 import (
+	"archive/zip"
 	"bytes"
+	"io"
 	"encoding/binary"
 	"strconv"
 	"strings"
@@ -24,6 +26,9 @@ type mop struct {
 }
 
 type plan struct {
+	// Member >= 0: the operators are applied to the decompressed content of the Member-th entry
+	// (archive order) of a zip/jar/egg/whl fixture, which is then re-packed; -1 / absent: the whole file
+	Member  *int     `json:"member,omitempty"`
 	Ops     []mop    `json:"ops"`
 	Depth   int      `json:"depth"`
 	Allowed []string `json:"allowed"`
@@ -62,9 +67,19 @@ func (p *plan) String() string {
 		}
 	}
 	if len(parts) == 0 {
-		return "Identity"
+		parts = []string{"Identity"}
+	}
+	if p.member() >= 0 {
+		return "InMember(" + strconv.Itoa(p.member()) + "):" + strings.Join(parts, ";")
 	}
 	return strings.Join(parts, ";")
+}
+
+func (p *plan) member() int {
+	if p.Member == nil {
+		return -1
+	}
+	return *p.Member
 }
 
 func clamp(b []byte) []byte {
@@ -86,6 +101,9 @@ func pos(n, i, g int) int {
 }
 
 func applyPlan(data []byte, p *plan) []byte {
+	if k := p.member(); k >= 0 {
+		return applyInMember(data, k, p)
+	}
 	out := append([]byte(nil), data...)
 	for _, o := range p.Ops {
 		out = clamp(applyOp(out, o))
@@ -387,4 +405,54 @@ func zipEdit(d []byte, st, field, val string) []byte {
 	}
 	_ = binary.LittleEndian
 	return out
+}
+
+// ---- archive members ----
+
+// zipMemberCount returns the number of entries if data is a readable zip archive, else -1.
+func zipMemberCount(data []byte) int {
+	zr, err := zip.NewReader(bytes.NewReader(data), int64(len(data)))
+	if err != nil {
+		return -1
+	}
+	return len(zr.File)
+}
+
+// applyInMember applies the plan's operators to the decompressed content of the k-th entry and
+// writes the archive anew (same entry names, order and compression methods). If data is not a zip
+// archive, has no k-th entry or the entry cannot be read, the file is returned unchanged.
+func applyInMember(data []byte, k int, p *plan) []byte {
+	zr, err := zip.NewReader(bytes.NewReader(data), int64(len(data)))
+	if err != nil || k >= len(zr.File) {
+		return data
+	}
+	var buf bytes.Buffer
+	zw := zip.NewWriter(&buf)
+	for i, f := range zr.File {
+		rc, err := f.Open()
+		if err != nil {
+			return data
+		}
+		content, err := io.ReadAll(io.LimitReader(rc, maxOut+1))
+		rc.Close()
+		if err != nil || len(content) > maxOut {
+			return data
+		}
+		if i == k {
+			for _, o := range p.Ops {
+				content = clamp(applyOp(content, o))
+			}
+		}
+		w, err := zw.CreateHeader(&zip.FileHeader{Name: f.Name, Method: f.Method, Modified: f.Modified})
+		if err != nil {
+			return data
+		}
+		if _, err := w.Write(content); err != nil {
+			return data
+		}
+	}
+	if err := zw.Close(); err != nil {
+		return data
+	}
+	return clamp(buf.Bytes())
 }
